@@ -18,7 +18,7 @@ Definition gen_cfg (q1 q2 q3 : bool) : cfg :=
   {| c_connect := t_connect; c_invoke := t_invoke; c_ping := t_ping;
      c_first_types := hs_first_types; c_later_types := req_types;
      c_gate := fun s => match s with Thread => thread_gate | Multiplex => mux_gate end;
-     c_ok_only := hs_ok_only; c_marshal := marshal_id;
+     c_ok_only := hs_ok_only; c_marshal := marshal_id; c_client_uses_reply_ser := client_uses_reply_ser;
      q_silent_unknown_ser := q1; q_silent_validator_cce := q2; q_abort_unanswered := q3 |}.
 
 (* a reply as the peer sees it: wire type, exception flag, sequence number, serializer id,
@@ -142,3 +142,28 @@ Fixpoint model_items (g : cfg) (sty : servertype) (st : state) (l : list item)
 Definition model_case (k : case) :=
   let g := gen_cfg (k_q1 k) (k_q2 k) (k_q3 k) in
   model_items g (k_sty k) (start_state g (k_sty k) (k_reg0 k)) (k_items k).
+
+(* ---- the proxy's side: a real Proxy configured with serializer [cc_client_ser] connects to a scripted peer that
+   answers its CONNECT with [cc_answer] = (wire type, serializer id of the answer, class of the reason text), or
+   closes without answering; [cc_obs] is what the Proxy made of it *)
+Record ccase := { cc_q : bool * bool * bool; cc_client_ser : N; cc_answer : option (N * N * option reason);
+                  cc_obs : client_outcome }.
+
+Definition kind_of_wire (ty : N) (r : option reason) : rkind :=
+  if (ty =? msg_connectok)%N then RConnectOk
+  else if (ty =? msg_connectfail)%N then RConnectFail (match r with Some x => x | None => RsnOther end)
+  else if (ty =? msg_ping)%N then RPong else RResult.
+
+Definition client_outcome_eqb (a b : client_outcome) : bool :=
+  match a, b with
+  | CConnected, CConnected | CNoAnswer, CNoAnswer | CGarbled, CGarbled | CProtocol, CProtocol => true
+  | CRejected x, CRejected y => reason_eqb x y
+  | _, _ => false
+  end.
+
+Definition model_ccase (k : ccase) : client_outcome :=
+  let '(q1, q2, q3) := cc_q k in
+  client_reads (gen_cfg q1 q2 q3) (cc_client_ser k)
+    (match cc_answer k with Some (ty, i, r) => Some (kind_of_wire ty r, 0%N, i) | None => None end).
+
+Definition check_ccase (k : ccase) : bool := client_outcome_eqb (model_ccase k) (cc_obs k).
